@@ -1,12 +1,12 @@
 SPECIFICATION Spec
 CONSTANTS
-  Threads = {"a", "b", "c"}
+  Threads = {"a", "b"}
   Ids = {"u1", "u2"}
   Names = {"bob", "al"}
   Kicks = {TRUE, FALSE}
-  Onlines = {TRUE}
+  Onlines = {TRUE, FALSE}
   Leaves = {TRUE, FALSE}
-  Denies = {FALSE}
+  Denies = {TRUE, FALSE}
   Locked = TRUE
   PtrCheck = TRUE
   UnlockOnReject = TRUE
